@@ -300,6 +300,9 @@ func (t *StreamUnderlay) onOpenSessionRequest(seg *segment) error {
 		policy = seg.serverUserAuthentication.Policy()
 	}
 	session := newSessionWithServerUserPolicy(sessionID, false, t.MTU(), policy, nil, t.trafficPattern)
+	if seg.block != nil {
+		session.registerServerUserMetrics(seg.block.BlockContext().UserName)
+	}
 	if err := t.AddSession(session, nil); err != nil {
 		return err
 	}
